@@ -103,6 +103,10 @@ def gen_case(seed, tier, idx):
     kind = idx % 4
     heavy = kind == 3
     n = rnd.choice([0, 1, 1, 2, 2, 3, 3, 4, 5, 6, 7, 8, 9, 9])
+    # maps wider than one machine word (word-wise reductions, partial top word): one case in twelve
+    wide = idx % 12 == 7
+    if wide:
+        n = rnd.choice([31, 32, 33, 33, 40, 47, 63, 64, 65, 70, 97])
     K = n + rnd.choice([0, 0, 1, 2])
     r = rnd.random()
     if r < 0.15:
@@ -115,6 +119,8 @@ def gen_case(seed, tier, idx):
     w = len(mem)
     full = (1 << w) - 1
     T = (300 if tier == "quick" else 600) // (3 if heavy else 1)
+    if wide:
+        T = 48
     stim = []
     if kind in (0, 3):
         pi = rnd.choice([0.1, 0.5, 0.5, 0.9]); pc = rnd.choice([0.05, 0.3, 0.5, 1.0])
@@ -191,6 +197,10 @@ def gen_case(seed, tier, idx):
         while len(stim) < T:
             stim.append([[rnd.randrange(2) for _ in range(K)], 0, 0])
         stim = stim[:T]
+    if wide and w:
+        # one enabled line at a time, mostly in the top bits: a lost bit of the reduction cannot hide behind others
+        for row in stim:
+            row[1] = rnd.choice([1 << (w - 1 - rnd.randrange(min(w, 9))), 1 << rnd.randrange(w), 0, row[1]])
     case = {"engine": "event", "kind": ["random", "sticky", "coincide", "api"][kind],
             "cfg": {"modes": modes, "montrig": rnd.randrange(3)},
             "ops1": ops1, "ops2": ops2, "stim": stim}
